@@ -20,6 +20,8 @@ RULES = {
              "bound len in 1..=PREFIX_META_SIZE-2, and the entry stride PREFIX_META_SIZE + read_size",
     "C01.3": "checksum before hand-out (MPT): every construction of an Entry that can reach a public return is dominated by the equal-edge of a comparison between checksum64 of the "
              "very bytes handed out and the checksum field of the decoded Metadata",
+    "C01.4": "no entry is skipped because the plan ends inside it (= C03.3): when nothing is planned yet the planned range is widened to the size announced by the header at the cursor; "
+             "the only branches that may bypass the widening are the enumerated ones (peek flag cleared only for offset-addressed reads, header beyond the used bytes, invalid header)",
 }
 
 
@@ -320,9 +322,11 @@ def run(ctx):
     check_read_next_commit(ctx, facts)
     check_header_tables(ctx, facts)
     check_checksum_gate(ctx, facts)
+    from .c03 import check_first_entry_widening
+    check_first_entry_widening(ctx, facts, rid="C01.4")
     ctx.assume("NOT decided: ordering and once-only delivery across blocks, the planner/budget interaction (e.g. a budget that ends inside a sealed block while the tail holds entries), rotation arithmetic")
     return {
-        "explanation": "three structural clauses on MIR: must-pass-through between the per-entry counter and the push into the returned vector (with offset-addressed-only edges derived "
+        "explanation": "four structural clauses on MIR: must-pass-through between the per-entry counter and the push into the returned vector (with offset-addressed-only edges derived "
                        "from the code), dataflow/NOEXIT obligations on read_next's cursor commits, agreement of encoder and decoder header tables by symbolic expression reconstruction, "
-                       "and a dominance rule for the checksum comparison before every Entry construction.",
+                       "a dominance rule for the checksum comparison before every Entry construction, and an only-allowed-bypass rule for the widening of the first planned range.",
     }
